@@ -248,8 +248,8 @@ class Expander:
             # small helpers are inlined; a helper with a few returns gives one alternative per return (flow-insensitive)
             nstmts = len(list(self.t.nodes_in(g, ast.stmt)))
             loops = list(self.t.nodes_in(g, (ast.For, ast.While, ast.Try)))
-            small = not g.is_abstract and ((len(rets) == 1 and nstmts <= 8) or (2 <= len(rets) <= 4 and nstmts <= 12 and not loops
-                                                                             and g.cls is None and g.name.startswith("_")))
+            small = not g.is_abstract and not g.is_wrapped and ((len(rets) == 1 and nstmts <= 8) or (2 <= len(rets) <= 4 and nstmts <= 12 and not loops
+                                                                             and g.name.startswith("_") and not g.name.endswith("__")))
             if small and key not in busy:
                 bound = self.t.bind_args(g, e)
                 env2: Dict[str, List[ast.expr]] = {}
